@@ -116,6 +116,7 @@ def run_shard(spec, tier, seed):
         run_classmethods(res, seed)
     if spec["i"] < len(R.ALL_SYSTEMS):
         run_extras_history(res, seed, R.ALL_SYSTEMS[spec["i"]])
+        run_value_history(res, seed, R.ALL_SYSTEMS[spec["i"]])
     r = gen.rng(seed, "C06", spec["i"])
     objclasses = {(d, m): getattr(vector, ("MomentumObject" if m else "VectorObject") + f"{d}D") for d in (2, 3, 4) for m in (False, True)}
 
@@ -471,6 +472,64 @@ def run_extras_history(res, seed, system):
                     res.violation(f"C06/wrong-coordinate-system-or-flavor-with-extra-fields constructor={cname}",
                                   {"given": allnames, "got": [R.sysname(gsys) if gsys else None, gmom], "expected": [R.sysname(ref[0]), ref[1]]})
                 res.cell("extras-history", cname, "+".join(names), str(step))
+
+
+def run_value_history(res, seed, system):
+    """vector.obj / the object classes / the array constructors called repeatedly in one process with the same names and
+    values that compare (and hash) equal but are not the same thing: 1, 1.0, numpy.int64(1), numpy.float32(1), 0, 0.0, -0.0,
+    2**53+1 as int.  Each construction holds exactly what *it* was given (the very object for the object backend; dtype and
+    bits for arrays), whatever was constructed before"""
+    import awkward as ak
+
+    import vector
+
+    names_g = tuple(R.field_names(system))
+    dim = len(system) + 1
+    seq = [1, 1.0, numpy.int64(1), numpy.float32(1), numpy.float64(1), 0, 0.0, -0.0, numpy.float64(-0.0), 2, 2.0,
+           2 ** 53 + 1, float(2 ** 53), numpy.longdouble(1) / 3, 1, -0.0, 0]
+    for sp in (0, 1):
+        names = tuple(B.names_for(system, True, sp)) if sp else names_g
+        if sp and names == names_g:
+            continue
+        cls = B.obj_class(dim, sp == 1)
+        for step, val in enumerate(seq):
+            vals = [val] * len(names)
+            for cname, build in (("obj", lambda: vector.obj(**dict(zip(names, vals)))),
+                                 ("class", lambda: cls(**dict(zip(names, vals))))):
+                res.evaluations += 1
+                try:
+                    o = build()
+                except Exception as e:
+                    res.violation(f"C06/valid-value-rejected constructor={cname}", {"names": list(names), "value": repr(val), "type": type(val).__name__,
+                                                                                    "step": step, "exc": f"{type(e).__name__}: {e}"[:160]})
+                    continue
+                _, stored = B.obj_stored(o)
+                bad = [i for i, x in enumerate(stored) if not (x is val or (type(x) is type(val) and repr(x) == repr(val)))]
+                if bad:
+                    res.violation(f"C06/value-not-stored-verbatim constructor={cname}",
+                                  {"names": list(names), "given": repr(val), "given_type": type(val).__name__, "stored": repr(stored[bad[0]]),
+                                   "stored_type": type(stored[bad[0]]).__name__, "step": step, "history": "equal-valued constructions before"})
+                res.cell("value-history", cname, "+".join(names), str(step))
+        # arrays: dtype and bits of every column as given
+        for step, (dt, v) in enumerate([(numpy.int64, 1), (numpy.float64, 1.0), (numpy.float32, 1.0), (numpy.int32, 1), (numpy.float64, -0.0),
+                                        (numpy.int64, 0), (numpy.float64, 0.0), (numpy.int64, 2 ** 53 + 1), (numpy.float64, 1.0)]):
+            cols = {n: numpy.array([v, v, v], dtype=dt) for n in names}
+            for cname, build, read in (
+                    ("array-dict", lambda: vector.array(dict(cols)), lambda o, n: numpy.asarray(o).view(numpy.ndarray)[n]),
+                    ("zip", lambda: vector.zip({n: ak.Array(c) for n, c in cols.items()}), lambda o, n: ak.to_numpy(o[n]))):
+                res.evaluations += 1
+                try:
+                    o = build()
+                    for n in names:
+                        col = read(o, GEN(n))
+                        if col.dtype != numpy.dtype(dt) or col.tobytes() != cols[n].tobytes():
+                            res.violation(f"C06/column-not-stored-verbatim constructor={cname}",
+                                          {"names": list(names), "given_dtype": numpy.dtype(dt).name, "stored_dtype": str(col.dtype), "value": repr(v), "step": step})
+                            break
+                except Exception as e:
+                    res.violation(f"C06/valid-value-rejected constructor={cname}", {"names": list(names), "dtype": numpy.dtype(dt).name, "step": step,
+                                                                                    "exc": f"{type(e).__name__}: {e}"[:160]})
+                res.cell("value-history", cname, "+".join(names), "col" + str(step))
 
 
 def finalize(total, tier, seed):
